@@ -176,6 +176,36 @@ func main() {
 			cm.Walk(rb.AsNode(), &cm.WalkOptions{Pre: func(c *cm.Cursor) bool { return true }, Post: func(c *cm.Cursor) bool { k++; return k < 2 }})
 			cm.Walk(rb.AsNode(), &cm.WalkOptions{Pre: func(c *cm.Cursor) bool { return false }})
 		}
+		// re-entrancy, deterministically: a traversal started from inside a callback of another traversal (a FilterTag
+		// predicate that renders, a Pre callback that walks) overlaps it in time on one goroutine; both must behave as alone
+		{
+			wantPlain := renderWith(cfg{f: func([]byte) bool { return false }}, roots, refs)
+			calls := 0
+			var inner []byte
+			outer := renderWith(cfg{f: func([]byte) bool {
+				calls++
+				if calls == 3 || calls == 25 {
+					inner = renderWith(cfg{f: func([]byte) bool { return false }}, roots, refs)
+				}
+				return false
+			}}, roots, refs)
+			if !bytes.Equal(outer, wantPlain) || (inner != nil && !bytes.Equal(inner, wantPlain)) {
+				fail("a Render started inside a FilterTag callback of another Render disturbs it (document %d)", di)
+			}
+			n, m := 0, 0
+			for _, rb := range roots {
+				cm.Walk(rb.AsNode(), &cm.WalkOptions{Pre: func(c *cm.Cursor) bool {
+					n++
+					if n%7 == 3 {
+						m += walkCount(roots)
+					}
+					return true
+				}})
+			}
+			if n != walkCount(roots) {
+				fail("a Walk started inside a Pre callback of another Walk disturbs it (document %d): %d nodes instead of %d", di, n, walkCount(roots))
+			}
+		}
 		wantR := make([][]byte, len(cfgs))
 		for i, c := range cfgs {
 			wantR[i] = renderWith(c, roots, refs)
